@@ -55,8 +55,8 @@ def _valid_cfg(cfg):
     even = any(m % 2 == 0 for m in cfg["fshape"])
     if even and cfg["mode"] in ("torus", "torus_str", "mixed", "same"):
         return False
-    if cfg["ldil"] is not None and cfg["mode"] not in ("explicit", "valid", "int"):
-        return False  # the code asks for literal padding with image dilation
+    # image dilation with a string padding mode: the code prints a warning (it recommends literal padding) but computes; the
+    # statement covers it (symmetric 'same' / toroidal treatment, "every image dilation")
     # output must be non-empty
     D = cfg["D"]
     for d in range(D):
@@ -88,6 +88,10 @@ def cells(tier, seed):
         mk(2, (3, 3), 1, 1, (2, 2), "int", (1, 1), (2, 1)),
         mk(2, (4, 4), 1, 2, (3, 3), "torus_str", (1, 1), None),
         mk(2, (4, 4), 0, 0, (3, 3), "torus", (2, 2), None),
+        mk(2, (3, 4), 1, 0, (3, 3), "same", (1, 1), (2, 2)),      # image dilation with zero 'same' padding
+        mk(2, (3, 3), 0, 1, (3, 3), "torus", (1, 1), (2, 1)),     # image dilation on a torus (equivariance only, no translations)
+        mk(2, (2, 3), 0, 0, (3, 1), "mixed", (1, 2), (1, 3)),
+        mk(3, (2, 2, 3), 0, 1, (3, 3, 3), "same", (1, 1, 1), (2, 2, 2), gs="generators" if tier == "quick" else "all"),
         mk(2, (3, 4), 0, 1, (3, 3), "torus", (4, 1), None),       # halo larger than the image side (several periods)
         mk(2, (3, 3), 1, 0, (3, 3), "mixed", (5, 5), None),
         mk(2, (4, 4), 1, 1, (3, 3), "torus", (1, 1), None, obj=True, p=0, pp=1),
